@@ -177,7 +177,7 @@ func (v *Vue) evalBoundAttribute(ctx VueContext, attrName, expr string) (any, er
 	// Not a variable path: a literal, a unary expression (!a, -n) or operators
 	// written without blanks (a+b) are expressions too.
 	if !helpers.IsVariablePath(expr) {
-		if result, err := v.exprEval.Eval(expr, ctx.stack.EnvMap()); err == nil && result != nil {
+		if result, err := v.exprEval.Eval(expr, v.exprEnv(ctx)); err == nil && result != nil {
 			return result, nil
 		}
 	}
